@@ -4,9 +4,11 @@ import (
 	"encoding/json"
 	"io"
 	"runtime"
+	"time"
 	stdlog "log"
 	"os"
 
+	"github.com/bmeg/grip/gdbi"
 	griplog "github.com/bmeg/grip/log"
 	"github.com/sirupsen/logrus"
 	"verifsim/simrt"
@@ -35,6 +37,14 @@ func quiet() {
 // hsend / hrecv: harness-side channel operations are scheduler yield points too.
 func hyield(site string) { simrt.Yield(site) }
 
+type gdbiVertex = gdbi.DataElement
+
 func jsonMarshal(v interface{}) ([]byte, error) { return json.Marshal(v) }
 
 func runtimeStack(b []byte) int { return runtime.Stack(b, false) }
+
+// sleepSim lets simulated time pass on a simulated goroutine (polling loops).
+func sleepSim(us int) {
+	simrt.Yield("h:sleep")
+	time.Sleep(time.Duration(us) * time.Microsecond)
+}
